@@ -315,7 +315,8 @@ class Epoch(object):
         77.184
         """
 
-        # Clean up the internal parameters
+        # Clean up the internal parameters (the argument may be this object)
+        previous = self._jde
         self._jde = 0.0
         # If no arguments are given, return. Internal values are 0.0
         if len(args) == 0:
@@ -324,7 +325,7 @@ class Epoch(object):
         # a tuple with year, month, day, etc or a datetime object
         elif len(args) == 1:
             if isinstance(args[0], Epoch):
-                self._jde = args[0]._jde
+                self._jde = previous if args[0] is self else args[0]._jde
                 year, month, day, hours, minutes, sec = self.get_full_date()
             elif isinstance(args[0], (int, float)):
                 self._jde = args[0]
